@@ -243,9 +243,15 @@ static void run_case(const Case& c, const string& wd, std::ostream& o) {
   Session local_session;
   Session& S = c.session ? g_sessions[c.session] : local_session;
   const string& id = c.id;
-  string stub = wd + "/" + id;
-  for (const char* ext : {".nl", ".col", ".row", ".sol"}) std::remove((stub + ext).c_str());
-  std::remove((stub + "w.nl").c_str());
+  // a session also shares ONE file stub (an application that keeps a working stub): the files of the previous model are
+  // on disk when the next one is written, so stale .col/.row files are observable.  Fresh cases get a fresh stub.
+  string stub = c.session ? wd + "/s" + std::to_string(c.session) : wd + "/" + id;
+  if (!c.session) {
+    for (const char* ext : {".nl", ".col", ".row", ".sol"}) std::remove((stub + ext).c_str());
+    std::remove((stub + "w.nl").c_str());
+  } else {
+    std::remove((stub + ".sol").c_str());
+  }
 
   vector<const char*> cn, rn;
   for (auto& s : c.cn) cn.push_back(s.c_str());
